@@ -77,12 +77,83 @@ func renumberRows(rows []siteRow, norm func([]string) []string) []siteRow {
 		groups[b] = append(groups[b], ent{i, strings.Join(at, " ; ")})
 	}
 	out := append([]siteRow{}, rows...)
+	drop := map[int]bool{}
 	for _, b := range order {
 		g := groups[b]
 		sort.SliceStable(g, func(i, j int) bool { return g[i].sort < g[j].sort })
+		// exits (returns, panics) with the same value: where the source has one `return x` under `a || b` or two
+		// returns under `a` and `!a && b` is a matter of style; state them as one row with the disjunction
+		if len(g) > 1 && (strings.Contains(b, " returns (") || strings.Contains(b, " panics ")) {
+			plain := true
+			for _, e := range g {
+				for _, a := range out[e.idx].Attrs {
+					if strings.HasPrefix(a, "OR{") {
+						plain = false
+					}
+				}
+			}
+			if plain {
+				cnt := map[string]int{}
+				for _, e := range g {
+					for _, a := range uniq(append([]string{}, out[e.idx].Attrs...)) {
+						cnt[a]++
+					}
+				}
+				var common []string
+				for a, n := range cnt {
+					if n == len(g) {
+						common = append(common, a)
+					}
+				}
+				sort.Strings(common)
+				var alts []string
+				var firstRest []string
+				trivial := false
+				for _, e := range g {
+					var rest []string
+					for _, a := range out[e.idx].Attrs {
+						if cnt[a] != len(g) {
+							rest = append(rest, a)
+						}
+					}
+					sort.Strings(rest)
+					rest = uniq(rest)
+					if len(rest) == 0 {
+						trivial = true
+					}
+					if firstRest == nil {
+						firstRest = rest
+					}
+					alts = append(alts, "("+strings.Join(rest, " & ")+")")
+				}
+				sort.Strings(alts)
+				alts = uniq(alts)
+				attrs := common
+				if !trivial && len(alts) > 1 {
+					attrs = append(attrs, "OR{"+strings.Join(alts, " | ")+"}")
+				} else if !trivial && len(alts) == 1 {
+					attrs = append(attrs, firstRest...)
+				}
+				out[g[0].idx].Key = b + "#1"
+				out[g[0].idx].Attrs = attrs
+				for _, e := range g[1:] {
+					drop[e.idx] = true
+				}
+				continue
+			}
+		}
 		for n, e := range g {
 			out[e.idx].Key = fmt.Sprintf("%s#%d", b, n+1)
 		}
+	}
+	if len(drop) > 0 {
+		var kept []siteRow
+		for i, r := range out {
+			if !drop[i] {
+				kept = append(kept, r)
+			}
+		}
+		out = kept
 	}
 	return out
 }
